@@ -702,6 +702,9 @@ func (sh *shared) record(ex *Exec, res pathResult) {
 	}
 	if res.viol != nil {
 		sig := res.viol.Kind + "|" + res.viol.Msg
+		if t := res.viol.Extra["tags"]; t != "" {
+			sig += "|" + t
+		}
 		if res.viol.Kind == "panic" {
 			sig = "panic|" + res.viol.Where
 		}
